@@ -21,6 +21,8 @@ Proof.
     + intros c E. eapply Live_view; [|apply LL; eauto]; view_ne s s0.
   - (* CWrite *) destr1 H; client_step LF LL s.
     all: live_of LL Heqo; clear LF LL; constructor; simpl; intros; norm_all; fin.
+  - (* CWriteBad *) destr1 H; client_step LF LL s.
+    all: live_of LL Heqo; clear LF LL; constructor; simpl; intros; norm_all; fin.
   - (* CRead *) destr1 H; client_step LF LL s.
     all: unfold c_do_read; destruct (c_closed c) eqn:K; [|destruct (c_events c) eqn:EV];
       live_of LL Heqo; clear LF LL; constructor; simpl; intros; norm_all; fin.
@@ -78,6 +80,16 @@ Proof.
       * fresh_contra LF E.
       * live_gen LL E.
   - (* SWrite *)
+    destruct (lookup s (sstreams x)) as [sv|] eqn:SV; try discriminate.
+    destruct (negb (s_started sv)); try discriminate.
+    destruct (s_closed sv) eqn:K; inversion H; subst; clear H.
+    + other_step LF LL s.
+      * fresh_contra LF E.
+      * live_gen LL E.
+    + other_step LF LL s.
+      * fresh_contra LF E.
+      * live_gen LL E.
+  - (* SWriteBad *)
     destruct (lookup s (sstreams x)) as [sv|] eqn:SV; try discriminate.
     destruct (negb (s_started sv)); try discriminate.
     destruct (s_closed sv) eqn:K; inversion H; subst; clear H.
